@@ -40,6 +40,9 @@ INLINE = [
     "-- sqlfluff:rules:LT01\n",
     "-- sqlfluff:exclude_rules:CP01\n",
     "-- sqlfluff:max_line_length:20\n",
+    "--sqlfluff:rules:LT01\n",
+    "--sqlfluff:exclude_rules:CP01\n",
+    "--sqlfluff:rules:capitalisation.keywords:capitalisation_policy:upper\n",
 ]
 RULESETS = ["LT01,CP01,RF02,LT12", "core", "LT01,LT02,CP01,CP02,AL01,RF02,LT12", None]
 WARNINGS = [None, None, "LT01", "CP01,RF02", "PRS", "LT01,CP01,RF02,LT12,LT02,AL01,CP02"]
@@ -180,6 +183,10 @@ def _api_main():
             res["n_unfiltered_tmp_prs"] = sum(1 for v in allv if isinstance(v, (SQLParseError, SQLTemplaterError)))
             res["shown"] = [[v.rule_code(), bool(v.warning), bool(getattr(v, "fixable", False)), isinstance(v, (SQLParseError, SQLTemplaterError))] for v in shown]
             res["fix_even_unparsable"] = bool(cfg.get("fix_even_unparsable"))
+            # ground truth "file has a templating / parsing error": a lint with every suppression switched off
+            tcfg = FluffConfig.from_path(rel, overrides={"ignore": "", "warnings": "", "disable_noqa": True})
+            tl = Linter(config=tcfg).lint_string(sql, fname=rel, config=tcfg)
+            res["truth_tmp_prs"] = sum(1 for v in tl.get_violations(filter_ignore=False, filter_warning=False) if isinstance(v, (SQLParseError, SQLTemplaterError)))
     except BaseException as e:
         res["error"] = f"{type(e).__name__}: {str(e)[:300]}"
     print(json.dumps(res))
